@@ -38,9 +38,13 @@ class ClassInfo:
                 k = field_kind(c)
                 ct = None
                 if k == "scalar":
-                    ct = T.ctype(c.get("type"))
-                    if ct[0] not in ("i", "b"):
-                        raise Untranslatable("member %s of unsupported type" % c["name"])
+                    try:
+                        ct = T.ctype(c.get("type"))
+                    except Untranslatable:
+                        ct = None
+                    if ct is None or ct[0] not in ("i", "b"):
+                        continue            # a member of another type (e.g. unique_ptr<Payload>): not part of the state; methods that
+                                            # touch it are untranslatable and, if they are argument-less const getters, become opaque inputs
                 self.fields.append((c["name"], k, ct))
         self.by_name = {f[0]: f for f in self.fields}
 
@@ -65,6 +69,9 @@ class ObjFn(FnTr):
         self.has_fuel = False
         self.aux = []
         self.nloops = 0
+        self.opaque = []        # names of argument-less const getters of the same object that are outside the subset: extra inputs
+        self.locrec = {}        # decl id of a local wire-record object -> lean name (Bytes)
+        self.outbuf = None      # decl id of a `void*` parameter that is only a memcpy destination: the function returns those bytes
 
     # ------------------------------------------------------------------ entry
     def run_obj(self):
@@ -75,7 +82,9 @@ class ObjFn(FnTr):
         f.lean = self.T.lean_name(n)
         qt = n.get("type", {}).get("qualType", "")
         rts = qt.split("(")[0].strip()
-        if strip_cv(rts) in FRAMES or "vector<vector<unsigned char>>" in rts:
+        if n["kind"] == "CXXConstructorDecl":
+            f.ret = ("v",)
+        elif strip_cv(rts) in FRAMES or "vector<vector<unsigned char>>" in rts:
             f.ret = ("frames",)
         else:
             f.ret = self.T.ctype_s(rts)
@@ -88,6 +97,9 @@ class ObjFn(FnTr):
                     self.pkt[c["id"]] = nm
                     f.params.append((nm, ("pkt",)))
                     self.local_ty[nm] = "PktIn"
+                    continue
+                if strip_cv(q) in ("void *", "void*") and self.only_memcpy_dest(c["id"], TU.body_of(n)):
+                    self.outbuf = c["id"]
                     continue
                 rq = strip_cv(q.rstrip("&").strip())
                 rec = None
@@ -111,25 +123,77 @@ class ObjFn(FnTr):
                     self.structs[c["id"]] = m
                     continue
                 t = self.T.ctype(c.get("type"))
-                if t[0] not in ("i", "b"):
+                if t[0] not in ("i", "b", "p"):
                     raise Untranslatable("parameter type %s" % (t,))
                 nm = self.vname(c.get("name") or self.fresh("anon"), "a_")
                 self.locals[c["id"]] = nm
-                self.local_ty[nm] = "Bool" if t[0] == "b" else "Nat"
+                self.local_ty[nm] = "Bool" if t[0] == "b" else "Nat"      # a pointer parameter is an address in the memory `m`
                 f.params.append((nm, t))
         body = TU.body_of(n)
-        f.body = self.block(body.get("inner", []), self.fall_off, 1)
+        pre = []
+        if n["kind"] == "CXXConstructorDecl":
+            f.ret = ("v",)
+            f.lean = f.lean + "_ctor"
+            for c in n.get("inner", []):
+                if c.get("kind") != "CXXCtorInitializer":
+                    continue
+                mname = (c.get("anyInit") or {}).get("name")
+                fld = self.cls.by_name.get(mname)
+                if fld is None:
+                    raise Untranslatable("initialiser of a member outside the state")
+                e = c["inner"][0]
+                if fld[1] in ("bytes", "frames"):
+                    if e.get("kind") == "CXXConstructExpr" and not e.get("inner"):
+                        pre.append("let s := { s with f_%s := [] }" % mname)
+                        continue
+                    raise Untranslatable("vector member initialiser")
+                if e.get("kind") == "CXXDefaultInitExpr":
+                    fd = [x for x in self.cls.rec.get("inner", []) if x.get("kind") == "FieldDecl" and x.get("name") == mname][0]
+                    init = [x for x in fd.get("inner", []) if x.get("kind") not in ("FullComment",)]
+                    if not init:
+                        raise Untranslatable("member without default initialiser")
+                    e = init[0]
+                B0 = []
+                v = self.ex(e, B0)
+                pre += B0
+                pre.append("let s := { s with f_%s := %s }" % (mname, v))
+        code = self.block(body.get("inner", []), self.fall_off, 1)
+        code = "".join("  " + x + "\n" for x in pre) + code
+        if self.outbuf is not None:
+            code = "  let out_ := ([] : Bytes)\n" + code
+        f.body = code
         f.has_fuel = self.has_fuel
         f.aux = self.aux
+        f.opaque = list(self.opaque)
+        f.outbuf = self.outbuf is not None
         return f
+
+    def only_memcpy_dest(self, did, body):
+        uses = []
+        self.uses_of(body, did, [], uses)
+        if not uses:
+            return False
+        for chain in uses:
+            i = len(chain) - 1
+            while i >= 0 and chain[i].get("kind") in ("ImplicitCastExpr", "ParenExpr", "CStyleCastExpr", "CXXStaticCastExpr", "CXXReinterpretCastExpr"):
+                i -= 1
+            if i < 0 or chain[i].get("kind") != "CallExpr":
+                return False
+            par = chain[i]
+            if self.strip_casts(par["inner"][0]).get("referencedDecl", {}).get("name") != "memcpy" or par["inner"][1] is not chain[i + 1]:
+                return False
+        return True
+
+    def void_result(self):
+        return "out_" if self.outbuf is not None else "()"
 
     def fall_off(self, ind):
         if self.fn.ret[0] == "v":
-            return "  " * ind + "pure (s, ())"
+            return "  " * ind + "pure (s, %s)" % self.void_result()
         return "  " * ind + "none"
 
     def ret_code(self, val, ind):
-        return "  " * ind + "pure (s, ())"
+        return "  " * ind + "pure (s, %s)" % self.void_result()
 
     def ret_code_v(self, v, ind):
         return "  " * ind + "pure (s, %s)" % v
@@ -228,6 +292,21 @@ class ObjFn(FnTr):
                     p = self.pkt_of(b["inner"][0]["inner"][0])
                     if p:
                         return (("pkt", p), "0")
+        if k == "CXXMemberCallExpr" and len(n["inner"]) == 1:
+            me = n["inner"][0]
+            b = me.get("inner", [{}])[0] if me.get("kind") == "MemberExpr" else {}
+            while b.get("kind") in ("ParenExpr", "ImplicitCastExpr"):
+                b = b["inner"][0]
+            if me.get("kind") == "MemberExpr" and me.get("isArrow") and b.get("kind") == "CXXThisExpr":
+                try:
+                    d = self.T.definition(me["referencedMemberDecl"])
+                except Untranslatable:
+                    d = None
+                body = TU.body_of(d).get("inner", []) if d is not None else []
+                if len(body) == 1 and body[0].get("kind") == "ReturnStmt" and body[0].get("inner"):
+                    r = self.pptr(body[0]["inner"][0], B)
+                    if r is not None:
+                        return r
         if k == "UnaryOperator" and n.get("opcode") == "&":
             x = n["inner"][0]
             while x.get("kind") in ("ParenExpr",):
@@ -337,7 +416,26 @@ class ObjFn(FnTr):
                 # --- method of the same object
                 if base.get("kind") == "CXXThisExpr" and me.get("isArrow"):
                     d = self.T.definition(me["referencedMemberDecl"])
-                    g = self.OT.translate(d)
+                    try:
+                        g = self.OT.translate(d)
+                    except Untranslatable:
+                        qt = d.get("type", {}).get("qualType", "")
+                        nparams = len([c for c in d.get("inner", []) if c.get("kind") == "ParmVarDecl"])
+                        try:
+                            rt = self.T.ctype_s(qt.split("(")[0].strip())
+                        except Untranslatable:
+                            rt = None
+                        if nparams == 0 and qt.rstrip().endswith("const") and rt is not None and rt[0] in ("i", "b"):
+                            nm2 = "g_" + re.sub(r"[^A-Za-z0-9_]", "_", d.get("name", "x"))
+                            if nm2 not in self.opaque:
+                                self.opaque.append(nm2)
+                                self.local_ty[nm2] = "Bool" if rt[0] == "b" else "Nat"
+                            return nm2
+                        raise
+                    for o in g.opaque:
+                        if o not in self.opaque:
+                            self.opaque.append(o)
+                            self.local_ty[o] = "Nat"
                     argv = []
                     for a in inner[1:]:
                         p = self.pkt_of(a)
@@ -354,13 +452,32 @@ class ObjFn(FnTr):
                         raise Untranslatable("argument count")
                     if g.has_fuel:
                         self.has_fuel = True
-                    callc = "%s %ss %s" % (g.lean + "_obj", "fuel " if g.has_fuel else "", " ".join(argv))
+                    if g.uses_mem:
+                        self.fn.uses_mem = True
+                        argv = ["m"] + argv
+                    callc = "%s %ss %s %s" % (g.lean + "_obj", "fuel " if g.has_fuel else "", " ".join(argv), " ".join(g.opaque))
                     if g.ret[0] == "v":
                         B.append("let (s, _) ← %s" % callc)
                         return None
                     r = self.fresh()
                     B.append("let (s, %s) ← %s" % (r, callc))
                     return r
+                # --- method of a local wire-record object
+                if base.get("kind") == "DeclRefExpr" and base["referencedDecl"]["id"] in self.locrec and not me.get("isArrow"):
+                    lname, _q = self.locrec[base["referencedDecl"]["id"]]
+                    d = self.T.definition(me["referencedMemberDecl"])
+                    g = self.T.translate_fn(d)
+                    if not g.has_this or g.uses_pd or g.outs:
+                        raise Untranslatable("callee shape")
+                    argv = [self.ex(a, B) for a in inner[1:]]
+                    if g.writes:
+                        if g.ret[0] != "v":
+                            raise Untranslatable("writing callee with a result")
+                        B.append("let %s ← %s %s 0 %s" % (lname, g.lean, lname, " ".join(argv)))
+                        return None
+                    t = self.fresh()
+                    B.append("let %s ← %s %s 0 %s" % (t, g.lean, lname if g.uses_mem else "", " ".join(argv)))
+                    return t
                 # --- packet writes its raw headers through a provenance pointer
                 p = self.pkt_of(obj)
                 if p is not None and nm in ("getRawCmpHeader", "getRawMessageHeader") and len(inner) == 2:
@@ -427,14 +544,37 @@ class ObjFn(FnTr):
         elif n["kind"] == "CallExpr":
             c = self.strip_casts(inner[0])
             nm = c.get("referencedDecl", {}).get("name")
+            if nm == "memcpy" and len(inner) == 4 and self.outbuf is not None:
+                d0 = inner[1]
+                while d0.get("kind") in ("ImplicitCastExpr", "ParenExpr", "CStyleCastExpr", "CXXStaticCastExpr", "CXXReinterpretCastExpr"):
+                    d0 = d0["inner"][0]
+                s0 = inner[2]
+                while s0.get("kind") in ("ImplicitCastExpr", "ParenExpr", "CStyleCastExpr", "CXXStaticCastExpr", "CXXReinterpretCastExpr"):
+                    s0 = s0["inner"][0]
+                if d0.get("kind") == "DeclRefExpr" and d0["referencedDecl"]["id"] == self.outbuf and s0.get("kind") == "UnaryOperator" and s0.get("opcode") == "&":
+                    t0 = s0["inner"][0]
+                    if t0.get("kind") == "DeclRefExpr" and t0["referencedDecl"]["id"] in self.locrec:
+                        lname, _q = self.locrec[t0["referencedDecl"]["id"]]
+                        cnt = self.ex(inner[3], B)
+                        B.append("let out_ ← takeExact %s %s" % (lname, cnt))
+                        return None
+                raise Untranslatable("memcpy to the output buffer outside the supported shape")
             if nm == "memcpy" and len(inner) == 4:
                 dst = self.pptr(inner[1], B)
                 src = self.pptr(inner[2], B)
-                if dst is None or dst[0][0] not in ("tmpl", "back") or src is None or src[0][0] != "pkt":
+                if dst is None or dst[0][0] not in ("tmpl", "back"):
                     raise Untranslatable("memcpy outside the supported shapes")
+                if src is not None and src[0][0] == "pkt":
+                    srcb = "(%s.rawPayload.drop %s)" % (src[0][1], src[1])
+                elif src is None:
+                    # a plain pointer: an address in the memory `m` (the caller's input buffer)
+                    self.fn.uses_mem = True
+                    srcb = "(m.drop %s)" % self.ex(inner[2], B)
+                else:
+                    raise Untranslatable("memcpy between member vectors")
                 cnt = self.ex(inner[3], B)
                 t = self.fresh()
-                B.append("let %s ← wrBytes %s %s (%s.rawPayload.drop %s) %s" % (t, self.rbytes(dst[0]), dst[1], src[0][1], src[1], cnt))
+                B.append("let %s ← wrBytes %s %s %s %s" % (t, self.rbytes(dst[0]), dst[1], srcb, cnt))
                 self.rstore(dst[0], t, B)
                 return None
         # a pure translated function (no memory, no this-state): e.g. buildSegmentationFlag is a method: handled above; others:
@@ -462,6 +602,16 @@ class ObjFn(FnTr):
                 if not init:
                     raise Untranslatable("uninitialised local")
                 e = init[0]
+                # local object of a wire record type, default-initialised
+                qd = strip_cv((d.get("type", {}).get("desugaredQualType") or d.get("type", {}).get("qualType") or ""))
+                if e.get("kind") == "CXXConstructExpr" and not e.get("inner"):
+                    dq = [k for k in self.T.layout.default if k == qd or k.endswith("::" + qd)]
+                    if len(dq) == 1:
+                        nm = self.vname(d["name"])
+                        self.locrec[d["id"]] = (nm, dq[0])
+                        self.local_ty[nm] = "Bytes"
+                        B.append("let %s := ([%s] : Bytes)" % (nm, ", ".join(str(x) for x in self.T.layout.default[dq[0]])))
+                        continue
                 # reference to the last frame
                 r = self.region_of(e)
                 q = d.get("type", {}).get("qualType", "")
@@ -491,10 +641,10 @@ class ObjFn(FnTr):
                     self.local_ty[off] = "Nat"
                     continue
                 t = self.T.ctype(d.get("type"))
-                if t[0] not in ("i", "b"):
+                if t[0] not in ("i", "b", "p"):
                     raise Untranslatable("local of type %s" % (t,))
                 nm = self.vname(d["name"])
-                v = self.ex(e, B)
+                v = self.ex(e, B)          # a pointer without provenance is an address in the memory `m`
                 self.locals[d["id"]] = nm
                 self.local_ty[nm] = "Bool" if t[0] == "b" else "Nat"
                 B.append("let %s := %s" % (nm, v))
@@ -596,13 +746,26 @@ class ObjTranslator:
     def run(self):
         for n in self.T.all_functions():
             ctx = self.T.tu.context(n)
-            if n["kind"] == "CXXMethodDecl" and ctx is not None and self.T.tu.qualname(ctx) == self.cls.qual:
+            if n["kind"] in ("CXXMethodDecl",) and ctx is not None and self.T.tu.qualname(ctx) == self.cls.qual:
                 try:
                     self.translate(n)
                 except Untranslatable:
                     pass
                 except (KeyError, IndexError, TypeError, AttributeError) as e:
                     self.failed[self.T.tu.qualname(n)] = "unexpected AST shape %r" % (e,)
+
+    def run_ctors(self):
+        for lst in self.T.tu.nodes.values():
+            for n in lst:
+                if n["kind"] == "CXXConstructorDecl" and TU.body_of(n) is not None and not n.get("isImplicit"):
+                    ctx = self.T.tu.context(n)
+                    if ctx is not None and self.T.tu.qualname(ctx) == self.cls.qual and any(c.get("kind") == "ParmVarDecl" for c in n.get("inner", [])):
+                        try:
+                            self.translate(n)
+                        except Untranslatable:
+                            pass
+                        except (KeyError, IndexError, TypeError, AttributeError) as e:
+                            self.failed[self.T.tu.qualname(n) + " (constructor)"] = "unexpected AST shape %r" % (e,)
 
     def emit(self):
         out = [self.cls.struct()]
@@ -613,7 +776,13 @@ class ObjTranslator:
             for nm, t in f.params:
                 ps.append("(%s : %s)" % (nm, "PktIn" if t[0] == "pkt" else ("Bool" if t[0] == "b" else "Nat")))
             rt = {"v": "Unit", "b": "Bool", "frames": "List Bytes"}.get(f.ret[0], "Nat")
+            if getattr(f, "outbuf", False):
+                rt = "Bytes"
+            for o in getattr(f, "opaque", []):
+                ps.append("(%s : Nat)" % o)
             out.append("/-- `%s` -/" % f.qual)
+            if f.uses_mem:
+                ps.insert(0, "(m : Bytes)")
             out.append("def %s_obj %s(s : %s_St) %s : Option (%s_St × %s) := do" % (f.lean, "(fuel : Nat) " if f.has_fuel else "", self.cls.lean,
                                                                                     " ".join(ps), self.cls.lean, rt))
             out.append(f.body)
